@@ -39,6 +39,8 @@ def as_arr(v, kind=None):
 def dtype_kind(dtype, default="f"):
     if dtype is None:
         return default
+    if isinstance(dtype, np.dtype):
+        return {"i": "i", "u": "i", "b": "b", "f": "f", "c": "c"}.get(dtype.kind, "o")
     name = getattr(dtype, "tag", None) or str(dtype)
     if "int" in name:
         return "i"
@@ -1020,6 +1022,14 @@ def _tile(I, a, reps):
     return NDArr(np.tile(a.data, reps), a.kind)
 
 
+@model("numpy.repeat")
+def _repeat(I, a, repeats, axis=None):
+    a = as_arr(a)
+    if not isinstance(repeats, int):
+        raise Unsupported("np.repeat with non-scalar repeats")
+    return NDArr(np.repeat(a.data, repeats, axis=axis), a.kind)
+
+
 @model("numpy.where")
 def _where(I, c, a=None, b=None):
     if a is None:
@@ -1412,3 +1422,54 @@ def _abs_cx(I, v):
 @model("builtins.complex")
 def _complex(I, re=0, im=0):
     return Cx(to_real(re), to_real(im))
+
+
+# ---- native call-through for numpy functions on fully concrete integer/bool data (exact) ---------------------------
+def _to_native(v):
+    if isinstance(v, NDArr):
+        cells = v.flat()
+        if all(isinstance(c, bool) for c in cells) and cells:
+            return np.array(cells, dtype=bool).reshape(v.shape)
+        if all(isinstance(c, int) for c in cells):
+            return np.array([int(c) for c in cells], dtype=np.int64).reshape(v.shape)
+        raise Unsupported("native numpy call-through needs integer/bool arrays")
+    if isinstance(v, (list, tuple)):
+        return type(v)(_to_native(x) for x in v)
+    if isinstance(v, (int, bool, str)) or v is None:
+        return v
+    if isinstance(v, DType):
+        return np.dtype({"float": "float64", "double": "float64", "int": "int64", "bool_": "bool"}.get(v.tag, v.tag))
+    if isinstance(v, np.dtype):
+        return v
+    raise Unsupported(f"native numpy call-through: argument of type {type(v).__name__}")
+
+
+def _from_native(r):
+    if isinstance(r, np.ndarray):
+        if r.dtype.kind in "iub":
+            return NDArr(obj_array(r.astype(object).tolist() if r.ndim else [r.item()]) if r.ndim else obj_array([r.item()]), "b" if r.dtype.kind == "b" else "i") if r.ndim else (bool(r) if r.dtype.kind == "b" else int(r))
+        raise Unsupported("native numpy call-through produced a non-integer array")
+    if isinstance(r, (tuple, list)):
+        return type(r)(_from_native(x) for x in r)
+    if isinstance(r, (np.integer,)):
+        return int(r)
+    if isinstance(r, (np.bool_,)):
+        return bool(r)
+    if isinstance(r, (int, bool, str, np.dtype)) or r is None:
+        return r
+    raise Unsupported(f"native numpy call-through: result of type {type(r).__name__}")
+
+
+def native_numpy(dotted):
+    obj = np
+    for part in dotted.split(".")[1:]:
+        obj = getattr(obj, part, None)
+        if obj is None:
+            return None
+    if not callable(obj):
+        return None
+    from .symex import ModelFn
+
+    def fn(I, *a, **k):
+        return _from_native(obj(*[_to_native(x) for x in a], **{kk: _to_native(v) for kk, v in k.items()}))
+    return ModelFn("numpy-native:" + dotted + " (exact on integer data)", fn)
